@@ -210,6 +210,9 @@ class Sched(Part):
             raise Violation("mto.thread-died", f"{name}: {exc!r}", exc=exc)
         if out.sched.escalations:
             raise Violation("mto.escalation", f"{out.sched.escalations}")
+        late = inproc.late_wakeups(out.sched)
+        if late:
+            raise Violation("mto.lost-wakeup", f"a blocked call was never woken, it only returned by its 60 s timeout: {late}")
         judge(case["history"], plan, out.result, main_ident=id(out.pair.worker_thread))
 
     def run(self, case, ctx):
